@@ -121,6 +121,9 @@ func body(s *simrt.Sim, tier string) {
 	b := batcher.New[string, int](interval)
 	var resume, stopReaders atomic.Bool
 	deadAfterCancel := s.Choose(2, "deadAfterCancel") == 0
+	// a subscriber that does not read at all - it stays stalled for good, with more events outstanding than
+	// the internal buffer holds: Close, at whatever point of the blocked delivery, returns all the same
+	hardStall := flood && s.Choose(2, "hardstall") == 0
 	var closeReturn, closeInvoke atomic.Uint64
 
 	var subNames, workNames []string
@@ -157,7 +160,7 @@ func body(s *simrt.Sim, tier string) {
 				var v int
 				var ok bool
 				late := false
-				if closeRace {
+				if closeRace || hardStall { // (with a silent subscriber a Subscribe may wait for the lock until Close)
 					// a Subscribe that loses against Close is silently dropped and its channel never closed: poll
 					tm := time.NewTimer(300 * time.Millisecond)
 					timedOut := false
@@ -171,10 +174,16 @@ func body(s *simrt.Sim, tier string) {
 					})
 					tm.Stop()
 					if timedOut {
-						if stopReaders.Load() {
+						if !stopReaders.Load() {
+							continue
+						}
+						// the timer may have won the select against a channel that is ready too: look once more
+						select {
+						case v, ok = <-sb.ch:
+							late = ok && closeReturn.Load() != 0
+						default:
 							return
 						}
-						continue
 					}
 				} else {
 					s.Block("recv", func() { v, ok = <-sb.ch; late = ok && closeReturn.Load() != 0 })
@@ -253,13 +262,26 @@ func body(s *simrt.Sim, tier string) {
 	// 1. producers and cancellers finish (a stalled live subscriber may legitimately hold up Batch: backpressure),
 	//    so stalled subscribers resume first if needed.
 	if !s.Join(200*time.Millisecond, workNames...) {
-		resume.Store(true)
-		if !s.Join(time.Hour, workNames...) {
-			s.Fail("wedged", "Batch / cancel did not return although every stalled subscriber resumed reading or was cancelled\n"+s.Dump())
+		switch {
+		case hardStall && closeRace:
+			s.Fail("close-wedged-by-silent-subscriber", "a live subscriber does not read at all (more events outstanding than its buffer holds): Close must return all the same and let Batch return; Close / Batch / cancel did not return\n"+s.Dump())
 			return
+		case hardStall:
+			// backpressure from the silent subscriber: the Close below must release whatever waits
+			s.Probe("batch-blocked-until-close")
+		default:
+			resume.Store(true)
+			if !s.Join(time.Hour, workNames...) {
+				s.Fail("wedged", "Batch / cancel did not return although every stalled subscriber resumed reading or was cancelled\n"+s.Dump())
+				return
+			}
 		}
 	}
-	resume.Store(true)
+	if !hardStall {
+		resume.Store(true)
+	} else {
+		s.Fault("subscriber.silent")
+	}
 	if anyStall {
 		s.Fault("subscriber.stall")
 	}
@@ -305,8 +327,8 @@ func body(s *simrt.Sim, tier string) {
 				}
 			}
 		}
-		if sb.willCancel || sb.subReturn == 0 || closeRace {
-			continue // with Close racing, pending values are legitimately dropped
+		if sb.willCancel || sb.subReturn == 0 || closeRace || hardStall {
+			continue // with Close racing, pending values are legitimately dropped; a silent subscriber holds deliveries up until Close
 		}
 		// must-deliver
 		for _, c := range calls {
@@ -362,9 +384,18 @@ func body(s *simrt.Sim, tier string) {
 	}
 	s.Go("closer2", doClose)
 	if !s.Join(time.Hour, "closer", "closer2") {
+		if hardStall {
+			s.Fail("close-wedged-by-silent-subscriber", "Close did not return while a live subscriber does not read at all\n"+s.Dump())
+			return
+		}
 		s.Fail("close-wedged", "Close did not return although no subscriber is stalled any more\n"+s.Dump())
 		return
 	}
+	if !s.Join(time.Hour, workNames...) {
+		s.Fail("wedged", "Close returned but Batch / cancel did not\n"+s.Dump())
+		return
+	}
+	resume.Store(true)
 	stopReaders.Store(true)
 	if !s.Join(time.Hour, subNames...) {
 		s.Fail("channel-not-closed", "a subscriber channel was not closed after Close returned\n"+s.Dump())
